@@ -80,3 +80,56 @@ func itoa(i int) string {
 	}
 	return string(b)
 }
+
+
+var bareOps = []string{">=", "<=", ">", "<", "=", "!=", "==", "~>", "~=", "^", "~", "<>", ">>", "<<", "===", "*", "x", "-", "||", "and", "AND", ",", "[", "(", "]", ")", "@", "@dev"}
+
+// HostileRange applies TOKEN-level damage to an intended-valid range of the ecosystem: an operator that lost
+// its operand, an operand that lost its operator, a bare operator appended with each AND / OR separator,
+// deleted or doubled tokens and separators. (Panics in range parsers live behind exactly these shapes and
+// byte-level mutation rarely produces them together with keyword separators such as " and ".)
+func HostileRange(eco string, r *rand.Rand) string {
+	syn := rangeTable[eco]
+	seps := append(append([]string{" ", ",", ", ", " || ", "||", " and ", " - "}, syn.and...), syn.or...)
+	base := RangeOne(eco, r)
+	if r.IntN(3) == 0 { // force a multi-constraint range with a keyword separator
+		base = RangeOne(eco, r) + seps[r.IntN(len(seps))] + RangeOne(eco, r)
+	}
+	toks := strings.Fields(base)
+	switch r.IntN(8) {
+	case 0: // append a bare operator
+		return base + seps[r.IntN(len(seps))] + bareOps[r.IntN(len(bareOps))]
+	case 1: // prepend a bare operator
+		return bareOps[r.IntN(len(bareOps))] + seps[r.IntN(len(seps))] + base
+	case 2: // strip the operand of the last token
+		if len(toks) > 0 {
+			t := toks[len(toks)-1]
+			k := 0
+			for k < len(t) && strings.ContainsRune("<>=!~^", rune(t[k])) {
+				k++
+			}
+			toks[len(toks)-1] = t[:k]
+			return strings.Join(toks, " ")
+		}
+	case 3: // delete a token
+		if len(toks) > 1 {
+			k := r.IntN(len(toks))
+			return strings.Join(append(append([]string{}, toks[:k]...), toks[k+1:]...), " ")
+		}
+	case 4: // replace a token by a bare operator
+		if len(toks) > 0 {
+			toks[r.IntN(len(toks))] = bareOps[r.IntN(len(bareOps))]
+			return strings.Join(toks, " ")
+		}
+	case 5: // double a separator / trailing separator
+		return base + seps[r.IntN(len(seps))]
+	case 6: // only operators and separators
+		n := 1 + r.IntN(4)
+		out := ""
+		for i := 0; i < n; i++ {
+			out += bareOps[r.IntN(len(bareOps))] + seps[r.IntN(len(seps))]
+		}
+		return out + pick(r, "", bareOps[r.IntN(len(bareOps))])
+	}
+	return seps[r.IntN(len(seps))] + base
+}
